@@ -19,6 +19,11 @@ var (
 	// ErrMissingDB indicates that one or more of the utility databases was not provided. The wrapped
 	// error message should indicate which database was missing.
 	ErrMissingDB = errors.New("missing one or more geoip DBs")
+
+	// ErrLookupFailed is returned when a database lookup fails. The reader's own error is not passed on:
+	// its text can embed the looked-up address ("error looking up '<ip>': ...") and callers log these
+	// errors even when client address logging is disabled.
+	ErrLookupFailed = errors.New("geoip lookup failed")
 )
 
 // DBConfig contains options used for GeoIP lookup - including paths to database files
@@ -93,7 +98,7 @@ func (mmdb *maxMindDatabase) ASN(ipAddress net.IP) (uint, error) {
 
 	record, err := mmdb.asnReader.ASN(ipAddress)
 	if err != nil {
-		return 0, err
+		return 0, ErrLookupFailed
 	}
 
 	return record.AutonomousSystemNumber, nil
@@ -107,7 +112,7 @@ func (mmdb *maxMindDatabase) CC(ipAddress net.IP) (string, error) {
 
 	record, err := mmdb.ccReader.Country(ipAddress)
 	if err != nil {
-		return "", err
+		return "", ErrLookupFailed
 	}
 	if record == nil {
 		return "unk", nil
